@@ -78,12 +78,13 @@ def reg (c : RegCfg) : Machine RegSt RegIn Nat :=
 /-- `Nand2`: And2 into a wire as wide as `a`, then Not into `r` -/
 def nand2 (aw rw a b : Nat) : Nat := not1 rw (and2 aw a b)
 
-/-- `Xor2`: four Nand2; the inner wires are as wide as `a` -/
+/-- `Xor2` (repo ≥ 4cfd4ac): four Nand2; Mid / XOut / YOut are as wide as `r`; each Nand2's own inner wire is as wide as
+    its first operand -/
 def xor2 (aw rw a b : Nat) : Nat :=
-  let mid := nand2 aw aw a b
-  let x := nand2 aw aw a mid
-  let y := nand2 aw aw b mid
-  nand2 aw rw x y
+  let mid := nand2 aw rw a b
+  let x := nand2 aw rw a mid
+  let y := nand2 aw rw b mid
+  nand2 rw rw x y
 
 /-- `And` on a list of ≥ 2 wires: And2 ladder on wires as wide as `r` -/
 def andLadder (rw : Nat) : List Nat → Nat
